@@ -477,6 +477,38 @@ macro_rules! perp_world {
                 Some((pay, cl))
             }
 
+            /// C12 on the real state: for every position the funding snapshots are at most the market's indices (the invariant
+            /// behind `pending_funding_defined`), `pending_funding_fees` is defined, and its three amounts are the ones recomputed
+            /// here from the indices and snapshots (fee rounded up, claimable amounts rounded down; never negative)
+            pub fn check_c12(s: &Session) -> Option<String> {
+                let m = &s.m;
+                let den = bu(m.funding_amount_per_size_adjustment) * bu(UNIT);
+                if den == BigInt::from(0) { return None; }
+                let mut mm = m.clone();
+                for (id, p) in s.ps.iter() {
+                    let (fa, cf) = if p.is_long { (m.funding_amount_per_size.0, m.claimable_funding_amount_per_size.0) } else { (m.funding_amount_per_size.1, m.claimable_funding_amount_per_size.1) };
+                    let idx = [bu(if p.is_collateral_token_long { fa.long_amount } else { fa.short_amount }), bu(cf.long_amount), bu(cf.short_amount)];
+                    let snap = [bu(p.funding_fee_amount_per_size), bu(p.claimable_funding_fee_amount_per_size.0), bu(p.claimable_funding_fee_amount_per_size.1)];
+                    let name = ["funding fee amount per size", "claimable funding amount per size (long token)", "claimable funding amount per size (short token)"];
+                    for k in 0..3 { if snap[k] > idx[k] { return Some(format!("position {id}: snapshot of the {} is {} but the market's index is {}: the pending amount would be negative", name[k], snap[k], idx[k])); } }
+                    let size = bu(p.size_in_usd);
+                    let exp = [(&size * (&idx[0] - &snap[0]) + &den - 1) / &den, &size * (&idx[1] - &snap[1]) / &den, &size * (&idx[2] - &snap[2]) / &den];
+                    let mut q = p.clone();
+                    match q.ops(&mut mm).pending_funding_fees() {
+                        Err(_) => {
+                            // only a result that does not fit the number type may fail here
+                            let lim = BigInt::from(1) << W;
+                            if exp.iter().all(|x| *x < lim) { return Some(format!("position {id}: pending_funding_fees is not defined (expected {} / {} / {})", exp[0], exp[1], exp[2])); }
+                        }
+                        Ok(f) => {
+                            let got = [bu(*f.amount()), bu(*f.claimable_long_token_amount()), bu(*f.claimable_short_token_amount())];
+                            if got != exp { return Some(format!("position {id}: pending funding amounts are {:?} but the indices and snapshots give {:?}", got, exp)); }
+                        }
+                    }
+                }
+                None
+            }
+
             /// C09: the liquidation criterion recomputed from first principles with exact integers, reading only
             /// raw state (pools, position fields) and the configuration numbers given to `perp new`; it does not call
             /// `check_liquidatable` nor any of the functions it is composed of. Remaining collateral value =
@@ -820,6 +852,8 @@ macro_rules! perp_world {
                             let (c1, c2, wd) = ((unit * r.range(1, 50)) as $U, (unit * r.below(50)) as $U, (unit * r.below(20)) as $U);
                             self.pending = vec![format!("perp dec {sid} {pid} 0 {wd} 0 0 0 {pr}"), format!("perp inc {sid} {pid} {c2} 0 {pr}")];
                             if r.chance(1, 2) { self.pending.push(format!("perp dec {sid} {pid} 0 {wd} 0 0 0 {pr}")); }
+                            // half of the time the position is first PARTIALLY decreased (a third / a half of its size) and then touched again
+                            if r.chance(1, 2) { self.pending.push(format!("perp dec {sid} {pid} {} 0 0 0 0 {pr}", p.size_in_usd / r.range(2, 4) as $U)); }
                             Some(format!("perp inc {sid} {pid} {c1} 0 {pr}"))
                         }
                         _ => {
@@ -924,6 +958,7 @@ pub fn run_bin(prop: &str) {
     let mut after_inc: Option<(String, String, String)> = None; // (sid, pid, prices)
     let mut after_dec: Option<(String, String, String)> = None;
     let whole = prop == "WHOLE";
+    let mut c12_flagged: std::collections::HashSet<String> = std::collections::HashSet::new();
     let mut prev_idx: HashMap<String, Vec<BigInt>> = HashMap::new();
     let mut last_chk_liq: HashMap<(String, String, String), String> = HashMap::new();
     let mut last_inc: HashMap<(String, String), (String, BigInt, BigInt)> = HashMap::new(); // (sid,pid) -> (prices, collateral in, claimable funding value credited by the increase)
@@ -1064,6 +1099,7 @@ pub fn run_bin(prop: &str) {
                 // funding residual: literal clause and refined invariant
                 if matches!(op, "inc" | "dec" | "ufund") && !tr.unreported {
                     let pend = if is64 { db64.get(&sid).and_then(w64::pending_funding) } else { db128.get(&sid).and_then(w128::pending_funding) };
+                    if pend.is_none() { out.stat("funding.pending_undefined"); }
                     if let Some((pay, clm)) = pend {
                         for k in 0..2 {
                             // reported shortfalls count as collected: the invariant is tied to the reports, per token
@@ -1095,6 +1131,15 @@ pub fn run_bin(prop: &str) {
                     } else { out.stat("c11.partial_close"); if closed != requested { out.stat("c11.partial_close_adjusted"); } }
                     if total != uncapped { out.stat("c11.trader_cap_binds"); }
                 }
+            }
+            // ---------------- C12 on positions: pending funding defined and never negative, after EVERY operation
+            if prop == "C12" || whole {
+                let f = if is64 { db64.get(&sid).and_then(w64::check_c12) } else { db128.get(&sid).and_then(w128::check_c12) };
+                if let Some(w) = f { if !c12_flagged.contains(&sid) { out.oracle_fail(&w, &req); c12_flagged.insert(sid.clone()); if c12_flagged.len() > 256 { c12_flagged.clear(); } } }
+                else { out.stat("c12.positions_checked"); }
+                if matches!(op, "inc" | "dec") && ok && rt.len() > 24 { let (a, b, c) = if op == "inc" { (11, 12, 13) } else { (22, 23, 24) };
+                    if bi(rt[a]) != BigInt::from(0) { out.stat("c12.funding_fee_paid"); }
+                    if bi(rt[b]) + bi(rt[c]) != BigInt::from(0) { out.stat("c12.funding_claimed"); } }
             }
             // ---------------- whole-market histories: C13 on the market and C12/C13 monotonicity after EVERY operation
             if whole {
